@@ -119,6 +119,99 @@ fn exec_ops(ctx: &mut Ctx, ev: &Ev) {
     ctx.check("esop-is-one-sound", !ns[0].is_one() || want_n.iter().all(|b| *b), ev, "not-is_one", || "is_one on a non-one !a".into());
 }
 
+/// operands of a chain: ints = [count, then per operand: 0, table index | 1, length, (pos, neg)*]
+enum Operand {
+    Table(Vec<u64>),
+    List(Vec<CubeM>),
+}
+
+fn chain_operands(ev: &Ev) -> Vec<Operand> {
+    let mut out = Vec::new();
+    let k = ev.ints[0] as usize;
+    let mut i = 1;
+    for _ in 0..k {
+        if ev.ints[i] == 0 {
+            out.push(Operand::Table(ev.tabs[ev.ints[i + 1] as usize].clone()));
+            i += 2;
+        } else {
+            let len = ev.ints[i + 1] as usize;
+            let l = (0..len).map(|j| CubeM::new(ev.ints[i + 2 + 2 * j] as u32, ev.ints[i + 3 + 2 * j] as u32)).collect();
+            out.push(Operand::List(l));
+            i += 2 + 2 * len;
+        }
+    }
+    out
+}
+
+fn chain_ev(n: usize, ops: &[Operand]) -> Ev {
+    let mut ev = Ev::new("esop-chain", "Esop", n).int(ops.len());
+    let mut t = 0;
+    for o in ops {
+        match o {
+            Operand::Table(b) => {
+                ev = ev.int(0).int(t).tab(b);
+                t += 1;
+            }
+            Operand::List(l) => {
+                ev = ev.int(1).int(l.len());
+                for c in l {
+                    ev = ev.int64(c.pos as u64).int64(c.neg as u64);
+                }
+            }
+        }
+    }
+    ev
+}
+
+/// `((a ^ b) ^ c) ^ ...`: long accumulations, operands converted from tables or given as cube lists with repeated
+/// cubes; after every step the accumulated form must denote the XOR of the operands so far.
+fn exec_chain(ctx: &mut Ctx, ev: &Ev) {
+    let n = ev.n;
+    let ops = chain_operands(ev);
+    let total_cubes: usize = ops.iter().map(|o| match o { Operand::Table(_) => 1usize << n.saturating_sub(1), Operand::List(l) => l.len() }).sum();
+    ctx.event(&format!("esop-chain|n={}|{}", n, if total_cubes > 256 { "over-256-cubes" } else { "small" }), ev, true);
+    let meanings: Vec<Vec<bool>> = ops.iter().map(|o| match o {
+        Operand::Table(b) => Model::from_blocks(n, b).bits,
+        Operand::List(l) => xor_sets(n, l),
+    }).collect();
+    let r = guard(|| {
+        let real: Vec<Esop> = ops.iter().map(|o| match o {
+            Operand::Table(b) => Esop::from(&Lut::from_blocks(n, b)),
+            Operand::List(l) => Esop::from_cubes(n, l.iter().map(|c| c.real()).collect::<Vec<Cube>>()),
+        }).collect();
+        let mut steps: Vec<(Vec<bool>, usize, bool, bool)> = Vec::new();
+        let mut acc = real[0].clone();
+        for (k, o) in real.iter().enumerate().skip(1) {
+            acc = match k % 4 {
+                0 => &acc ^ o,
+                1 => acc ^ o,
+                2 => &acc ^ o.clone(),
+                _ => acc ^ o.clone(),
+            };
+            steps.push(((0..1usize << n).map(|m| acc.value(m)).collect(), acc.num_cubes(), acc.is_zero(), acc.is_one()));
+        }
+        let l = Lut::from(&acc);
+        (steps, l)
+    });
+    match r {
+        Outcome::Returned((steps, l)) => {
+            let mut want = meanings[0].clone();
+            for (k, (vals, cubes, isz, iso)) in steps.iter().enumerate() {
+                for (w, m) in want.iter_mut().zip(meanings[k + 1].iter()) {
+                    *w ^= *m;
+                }
+                ctx.check("esop-xor-semantic", *vals == want, ev, "chain", || {
+                    format!("after {} operands of a ^-chain (n={}, {} cubes accumulated) the form does not denote the XOR of the operands", k + 2, n, cubes)
+                });
+                ctx.check("esop-is-zero-sound", !*isz || want.iter().all(|b| !*b), ev, "chain-is_zero", || "is_zero on a non-zero chain result".into());
+                ctx.check("esop-is-one-sound", !*iso || want.iter().all(|b| *b), ev, "chain-is_one", || "is_one on a non-one chain result".into());
+            }
+            ctx.check("esop-to-lut", Model::from_blocks(n, l.blocks()).bits == want, ev, "chain-lut", || "Lut::from(&chain result) is not the XOR of the operands".into());
+        }
+        Outcome::Panicked(msg) => ctx.violate("no-panic", ev, "esop-chain", format!("Esop ^-chain panicked: {}", msg)),
+    }
+}
+
 fn exec_ctor(ctx: &mut Ctx, ev: &Ev) {
     // values built by the named constructors; their meaning is read back through cubes()
     let n = ev.n;
@@ -163,6 +256,7 @@ fn exec(ctx: &mut Ctx, ev: &Ev) {
         "esop-ctor" => exec_ctor(ctx, ev),
         "pprm" => exec_pprm(ctx, ev),
         "esop-ops" => exec_ops(ctx, ev),
+        "esop-chain" => exec_chain(ctx, ev),
         other => panic!("harness: unknown op {}", other),
     }
 }
@@ -284,6 +378,37 @@ fn main() {
                     }
                     exec_ops(ctx, &ops_ev(nn, &a, &b));
                 }
+                // long accumulations: 2..9 operands, converted tables and long cube lists drawn from a small pool
+                // (so that cubes repeat three times and more), earlier operands coming back
+                for _ in 0..if thorough { 1500 } else { 40 } {
+                    let nn = rng.range(4, 10);
+                    let k = rng.range(2, 9);
+                    let pool: Vec<CubeM> = (0..rng.range(3, 40)).map(|_| random_cube(nn, &mut rng)).collect();
+                    let mut ops: Vec<Operand> = Vec::new();
+                    for j in 0..k {
+                        let o = match rng.below(6) {
+                            0 | 1 => Operand::Table(gen::random_blocks(nn, &mut rng)),
+                            2 => Operand::Table(gen::any_fam(nn, &mut rng).1),
+                            3 => {
+                                let len = *rng.pick(&[0usize, 1, 3, 20, 130, 260, 300, 520]);
+                                Operand::List((0..len).map(|_| if rng.chance(2, 3) { *rng.pick(&pool) } else { random_cube(nn, &mut rng) }).collect())
+                            }
+                            4 => Operand::List((0..rng.range(0, 6)).map(|_| *rng.pick(&pool)).collect()),
+                            _ => {
+                                if j > 0 {
+                                    match &ops[rng.below(j)] {
+                                        Operand::Table(b) => Operand::Table(b.clone()),
+                                        Operand::List(l) => Operand::List(l.clone()),
+                                    }
+                                } else {
+                                    Operand::List(vec![])
+                                }
+                            }
+                        };
+                        ops.push(o);
+                    }
+                    exec_chain(ctx, &chain_ev(nn, &ops));
+                }
                 if c == 0 {
                     for nn in 1..=10usize {
                         for v in 0..nn {
@@ -319,6 +444,9 @@ fn main() {
     for n in 0..=10 {
         required.push(format!("pprm|n={}", n));
         required.push(format!("esop-ops|n={}", n));
+        if n >= 6 {
+            required.push(format!("esop-chain|n={}|over-256-cubes", n));
+        }
     }
     cli.finish(&ctx, &required, RULE);
 }
